@@ -258,20 +258,26 @@ func observe(b *val, what string) (*val, status) {
 		}
 		return &val{k: kStr, str: p}, stOK
 	}
+	if what == "start" || what == "stop" {
+		// "in the binary's own unit, including for ranges that are not byte
+		// aligned": the smallest run of whole units that covers the bits
+		// (usage.md's `tobytesrange.start` is the "byte start position"); start is
+		// rounded down, stop up.  (Seed C09-3 showed what leaving the unaligned
+		// case unspecified costs.)  Empty binaries: position only, not asserted.
+		if L == 0 {
+			return nil, stUnspec
+		}
+		if what == "start" {
+			return numv(b.off / u), stOK
+		}
+		return numv((b.off + L + u - 1) / u), stOK
+	}
 	if !b.whole() {
 		return nil, stUnspec
 	}
 	switch what {
 	case "size", "length":
 		return numv(L / u), stOK
-	case "start", "stop":
-		if L == 0 || b.off%u != 0 {
-			return nil, stUnspec
-		}
-		if what == "start" {
-			return numv(b.off / u), stOK
-		}
-		return numv((b.off + L) / u), stOK
 	case "explode":
 		out := &val{k: kArr}
 		for i := int64(0); i < L/u; i++ {
